@@ -26,7 +26,7 @@ pub struct ThreadCase {
     pub join_order: u8,
     /// the main thread defines new globals between feeds
     pub defines: bool,
-    /// what the workers allocate: 0 boxes+vectors, 1 closures, 2 hash maps, 3 strings
+    /// what the workers allocate: 0 boxes+vectors, 1 closures, 2 hash maps, 3 strings, 4 closures over assigned variables
     pub garbage: u8,
     /// an extra thread that assigns a global `updater` times (a world-stopping request from a thread
     /// other than the main one); 0 = none
@@ -79,10 +79,13 @@ fn program(c: &ThreadCase) -> String {
     let tick = c.tick.max(2);
     // old cases (both_stop = false): with an updater thread nothing else stops the world - no heap garbage,
     // so no collection, and the main thread assigns nothing; new cases lift that
-    let garbage = match if c.updater > 0 && !c.both_stop { 3 } else { c.garbage % 4 } {
+    let garbage = match if c.updater > 0 && !c.both_stop { 3 } else { c.garbage % 5 } {
         0 => "(vector i (box i))",
         1 => "((lambda (a) (lambda () (+ a i))) (box i))",
         2 => "(hash-insert (hash 'a (box i)) 'b (vector i))",
+        // a closure over an assigned variable: the variable's cell is allocated by the NEWBOX instruction
+        // (in natively compiled code by its own helper), not by the `box` primitive
+        4 => "((mk-cell i))",
         _ => "(string-append (number->string i) \"x\")",
     };
     let mut s = String::new();
@@ -96,7 +99,7 @@ fn program(c: &ThreadCase) -> String {
         s.push_str("(require \"steel/sync\")\n");
     }
     s.push_str(if main_stops { "(define g0 0)\n" } else { "(define g0 1000000)\n" });
-    s.push_str("(define shared (box 0))\n(define shared-lock (mutex))\n(define (call1 f x) (f x))\n");
+    s.push_str("(define shared (box 0))\n(define shared-lock (mutex))\n(define (call1 f x) (f x))\n(define (mk-cell i) (let ((n i)) (lambda () (set! n (+ n 1)) n)))\n");
     s.push_str("(define (mk-tree d seed) (if (= d 0) (box seed) (vector (mk-tree (- d 1) (+ seed 1)) (box seed) (list (mk-tree (- d 1) (* seed 2))))))\n");
     s.push_str("(define (checksum t) (cond ((int? t) t) ((mutable-vector? t) (apply + (map checksum (mutable-vector->list t)))) ((pair? t) (apply + (map checksum t))) ((null? t) 0) (else (checksum (unbox t)))))\n");
     s.push_str(&format!(
@@ -437,7 +440,7 @@ fn periods(stress_only: bool) -> Vec<u64> {
 }
 
 pub fn case(stress_only: bool) -> impl Strategy<Value = ThreadCase> {
-    let base = (1u64..=8, prop::sample::select(vec![50u64, 200, 600, 2000]), prop::sample::select(vec![7u64, 50, 120]), 0u64..6, prop::sample::select(periods(stress_only)), 0u8..4, any::<bool>(), 0u8..4, prop::sample::select(vec![0u64, 0, 0, 0, 50, 300]), prop::sample::select(vec![0u64, 0, 10, 40]), any::<bool>());
+    let base = (1u64..=8, prop::sample::select(vec![50u64, 200, 600, 2000]), prop::sample::select(vec![7u64, 50, 120]), 0u64..6, prop::sample::select(periods(stress_only)), 0u8..4, any::<bool>(), 0u8..5, prop::sample::select(vec![0u64, 0, 0, 0, 50, 300]), prop::sample::select(vec![0u64, 0, 10, 40]), any::<bool>());
     // delay schedule: none in a third of the cases; otherwise a subset of the 8 delay points, firing at every
     // 1st / 3rd / 17th / 101st visit for 0 (yield) / 20 / 200 us
     let delays = (prop::sample::select(vec![0u64, 1, 1]), 1u64..256, prop::sample::select(vec![1u64, 3, 17, 101]), prop::sample::select(vec![0u64, 20, 200]), any::<bool>(), prop::sample::select(vec![0u8, 0, 1, 2, 3, 3, 4]), 0u8..6, prop::sample::select(vec![0u64, 0, 0, 25]));
